@@ -400,8 +400,20 @@ class Run:
                 self.samples[stream]['model'] = outs[0][:200]
         if spec is not None:
             seq = spec_compare or (lambda x, y: x == y)
+            spec_errors = 0
             for ln, a in zip(lines, impl_out):
-                s = spec(ln)
+                try:
+                    s = spec(ln)
+                except InfraError:
+                    raise
+                except Exception as e:  # noqa
+                    # an oracle that itself drives parts of the implementation (recording stand-ins for a library)
+                    # can stop working when the code changes shape: that is a broken tie, not a harness failure
+                    spec_errors += 1
+                    if spec_errors == 1:
+                        self.disagreements.append({'stream': stream, 'line': ln, 'impl': a,
+                                                   'model': 'spec oracle could not be evaluated: ' + err_name(e) + ': ' + str(e)[:200]})
+                    continue
                 if s is None:
                     continue
                 if not seq(a, s):
